@@ -940,8 +940,11 @@ hwloc_internal_memattr_set_value(hwloc_topology_t topology,
                                  struct hwloc_internal_location_s *initiator,
                                  hwloc_uint64_t value)
 {
-  assert(id != HWLOC_MEMATTR_ID_CAPACITY);
-  assert(id != HWLOC_MEMATTR_ID_LOCALITY);
+  if (id == HWLOC_MEMATTR_ID_CAPACITY || id == HWLOC_MEMATTR_ID_LOCALITY) {
+    /* convenience attributes cannot be modified, e.g. by values found in XML */
+    errno = EINVAL;
+    return -1;
+  }
 
   return hwloc__internal_memattr_set_value(topology, id, target_type, target_gp_index, target_os_index, initiator, value);
 }
